@@ -540,7 +540,7 @@ pub struct RDetail {
 
 pub const UTF8_LABELS: [&str; 3] = ["utf-8", "utf8", "unicode-1-1-utf-8"];
 /// Labels that are certainly not WHATWG encoding labels.
-pub const BOGUS_CHARSETS: [&str; 6] = ["x-no-such-charset", "utf-9", "klingon", "", "\"utf-8\"", "utf_8_"];
+pub const BOGUS_CHARSETS: [&str; 8] = ["x-no-such-charset", "utf-9", "klingon", "", "\"utf-8\"", "utf_8_", "\"", "'"];
 
 fn latin1(b: &[u8]) -> String {
     b.iter().map(|c| *c as char).collect()
